@@ -599,3 +599,154 @@ class GetSupportedLanguagesPassThrough(_LocalizationHandler):
         ex.oblige(st, 'storage_asked_exactly_once', z3.BoolVal(len(calls) == 1))
         R = self.response_list(ex, st, 'Lang')
         ex.oblige(st, 'response_lists_exactly_the_stored_languages', R == self.result if R is not None else z3.BoolVal(False))
+
+
+# ---------------------------------------------------------------------------------------------------------------
+# LocalizationStorage: languages and the flat text list
+@register
+class SupportedLanguages(FnCheck):
+    id = 'C20.supported_languages'
+    prop = 'C20'
+    target = f'{LS}:LocalizationStorage.get_supported_languages'
+    field_types = {'Lang': 'str'}
+    doc = ('get_supported_languages(): the returned list holds exactly the languages of the stored texts (the texts '
+           '_flat_list() yields: C20.flat_list) - every listed language belongs to a stored text, the language of every '
+           'stored text is listed, and no language is listed twice')
+    feasibility_ematch_only = True
+    feasibility_timeout_ms = 100
+
+    def setup(self, b):
+        st = b.st
+        self.F = z3.Const('all_stored_texts', SeqVal)
+        j = z3.Int('j!F')
+        st.assume(z3.ForAll([j], z3.Implies(z3.And(0 <= j, j < z3.Length(self.F)), z3.And(
+            Val.is_ref(self.F[j]), Val.oid(self.F[j]) > 0, Val.oid(self.F[j]) < FRESH_BASE))))
+        self.F_lang = st.get_arr('f:Lang')
+        st.assume(z3.ForAll([j], z3.Implies(z3.And(0 <= j, j < z3.Length(self.F)), Val.is_str(self.lang(self.F[j])))))
+        self.o = b.obj('self', cls=(LS, 'LocalizationStorage'))
+        # sel(k, v): v is the language of one of the first k stored texts
+        self.sel = z3.Function('language_of_first', IntS, Val, BoolS)
+        k, v = z3.Int('k!l'), z3.Const('v!l', Val)
+        st.assume(z3.ForAll([v], z3.Not(self.sel(0, v))))
+        st.assume(z3.ForAll([k, v], z3.Implies(k >= 0, self.sel(k + 1, v) == z3.Or(self.sel(k, v), v == self.lang(self.F[k]))),
+                            patterns=[self.sel(k + 1, v)]))
+        return self.o, [], {}
+
+    def lang(self, t):
+        return z3.Select(self.F_lang, Val.oid(t))
+
+    def callees(self, ex):
+        def flat(ex_, st, args, kwargs):
+            r = st.alloc('list')
+            st.set_list_seq(r, self.F)
+            return r
+        return {f'{LS}:LocalizationStorage._flat_list': Pure(flat, name='_flat_list(): all stored texts (C20.flat_list)')}
+
+    def loops(self, ex):
+        def inv(ex_, st, env):
+            res = ex_.concrete_kind(st, st.locals['result'], ('ref',))
+            members = z3.Select(st.get_arr('S'), res.e)
+            v = z3.Const('v!inv', Val)
+            return {'set_holds_the_languages_of_the_consumed_texts': z3.ForAll([v], z3.Select(members, v) == self.sel(env['_k'], v)),
+                    'is_a_set': z3.And(z3.Select(st.get_arr('C'), res.e) == ex_.ctx.builtin_class_ids['set'],
+                                       z3.Select(st.get_arr('SN'), res.e) >= 0)}
+        return {0: LoopSpec(inv=inv, havoc_heap=['S', 'SN'])}
+
+    def post(self, ex, st0, st, outcome, b):
+        if outcome[0] == 'exc':
+            ex.oblige(st, 'never_raises', z3.BoolVal(False), info={'exc': repr(outcome[1])})
+            return
+        r = ex.concrete_kind(st, outcome[1], ('ref',))
+        R = st.list_seq(r)
+        n = z3.Length(self.F)
+        i, j, v = z3.Int('i!p'), z3.Int('j!p'), z3.Const('v!p', Val)
+        ex.oblige(st, 'every_listed_language_is_the_language_of_a_stored_text',
+                  z3.ForAll([j], z3.Implies(z3.And(0 <= j, j < z3.Length(R)), self.sel(n, R[j]))))
+        ex.oblige(st, 'the_language_of_every_stored_text_is_listed',
+                  z3.ForAll([v], z3.Implies(self.sel(n, v), z3.Exists([j], z3.And(0 <= j, j < z3.Length(R), R[j] == v)))))
+        ex.oblige(st, 'no_language_is_listed_twice',
+                  z3.ForAll([i, j], z3.Implies(z3.And(0 <= i, i < j, j < z3.Length(R)), R[i] != R[j])))
+
+
+@register
+class FlatList(FnCheck):
+    id = 'C20.flat_list'
+    prop = 'C20'
+    tag = 'S'
+    target = f'{LS}:LocalizationStorage._flat_list'
+    container_hints = {'self._localized_texts': 'dict'}
+    feasibility_ematch_only = True
+    feasibility_timeout_ms = 100
+    doc = ('_flat_list(ref_list): without a reference list every key of the text store is visited, with one exactly the '
+           'given references; each visited reference contributes exactly the list of texts stored under it (an unknown '
+           'reference nothing), appended in order; the stored entries are not changed')
+
+    def setup(self, b):
+        st = b.st
+        ids = b.ex.ctx.builtin_class_ids
+        self.store = b.obj('_localized_texts')
+        st.assume(z3.Select(st.get_arr('C'), self.store.e) == ids['dict'])
+        st.assume(z3.Select(st.get_arr('DN'), self.store.e) >= 0)
+        self.dk0, self.dv0 = z3.Select(st.get_arr('DK'), self.store.e), z3.Select(st.get_arr('DV'), self.store.e)
+        k = z3.Const('k!s', Val)
+        st.assume(z3.ForAll([k], z3.Implies(z3.Select(self.dk0, k), z3.And(
+            Val.is_ref(z3.Select(self.dv0, k)), Val.oid(z3.Select(self.dv0, k)) > 0, Val.oid(z3.Select(self.dv0, k)) < FRESH_BASE,
+            z3.Select(st.get_arr('C'), Val.oid(z3.Select(self.dv0, k))) == ids['list']))))
+        self.L0 = st.get_arr('L')
+        self.given = b.bool('ref_list_given')
+        self.refs = b.obj('ref_list')
+        st.assume(z3.Select(st.get_arr('C'), self.refs.e) == ids['list'])
+        self.refs_seq = z3.Select(st.get_arr('L'), self.refs.e)
+        self.o = b.obj('self', cls=(LS, 'LocalizationStorage'), _localized_texts=self.store)
+        b.distinct(self.o, self.store, self.refs)
+        b.ex.ctx.sym_defaultdicts = [(self.store.e, 'list')]
+        arg = vany(z3.If(self.given.e, Val.ref(self.refs.e), Val.none), maybe_none=True, path='ref_list')
+        return self.o, [arg], {}
+
+    def loops(self, ex):
+        def inv(ex_, st, env):
+            kk = z3.Const('k!u', Val)
+            dk1, dv1 = z3.Select(st.get_arr('DK'), self.store.e), z3.Select(st.get_arr('DV'), self.store.e)
+            # (the store is a defaultdict: looking up an unknown reference adds an empty entry - existing entries stay)
+            goals = {'stored_entries_untouched': z3.ForAll([kk], z3.Implies(z3.Select(self.dk0, kk), z3.And(
+                z3.Select(dk1, kk), z3.Select(dv1, kk) == z3.Select(self.dv0, kk))))}
+            if env['_phase'] == 'entry':
+                seq = env['_seq']
+                j, k = z3.Int('j!h'), z3.Const('k!h', Val)
+                goals['visits_the_given_references_or_every_key'] = z3.If(
+                    self.given.e, seq == self.refs_seq,
+                    z3.And(z3.ForAll([j], z3.Implies(z3.And(0 <= j, j < z3.Length(seq)), z3.Select(self.dk0, seq[j]))),
+                           z3.ForAll([k], z3.Implies(z3.Select(self.dk0, k),
+                                                     z3.Exists([j], z3.And(0 <= j, j < z3.Length(seq), seq[j] == k))))))
+            if env['_phase'] == 'preserve':
+                texts = ex_.concrete_kind(st, st.locals['texts'], ('ref',))
+                before = st.ghost['c:texts0']
+                h = st.box(st.locals['handle'])
+                stored = z3.Select(self.L0, Val.oid(z3.Select(self.dv0, h)))
+                goals['reference_contributes_exactly_its_stored_texts'] = st.list_seq(texts) == z3.If(
+                    z3.Select(self.dk0, h), z3.Concat(before, stored), before)
+            return goals
+        return {0: LoopSpec(inv=inv, havoc_heap=['L'])}
+
+    def hooks(self, ex):
+        chk = self
+
+        class H:
+            tracked_names = ()
+
+            @staticmethod
+            def on_loop_head(ex_, st, node):
+                t = st.locals.get('texts')
+                if t is not None:
+                    t = ex_.concrete_kind(st, t, ('ref',))
+                    st.ghost['c:texts0'] = st.list_seq(t)
+                    # the stored lists are not the result list: they keep their content (frame of the arbitrary iteration)
+                    k = z3.Const('k!f', Val)
+                    st.assume(z3.ForAll([k], z3.Implies(z3.Select(chk.dk0, k),
+                                                        z3.Select(st.get_arr('L'), Val.oid(z3.Select(chk.dv0, k)))
+                                                        == z3.Select(chk.L0, Val.oid(z3.Select(chk.dv0, k))))))
+        return H
+
+    def post(self, ex, st0, st, outcome, b):
+        if outcome[0] == 'exc':
+            ex.oblige(st, 'never_raises', z3.BoolVal(False), info={'exc': repr(outcome[1])})
